@@ -21,6 +21,27 @@ fn c12_equals_u8_and_option() {
   let s = EqualsChecker.stamp(&r1);
   assert!(EqualsChecker.check(&r2, &s).is_none() == (r1 == r2));
 }
+/// an output type whose `==` is NOT structural: two representations of one number are equal ("the user's ==")
+#[derive(Clone, Debug)] enum Repr { Small(u8), Wide(u16) }
+impl Repr { fn val(&self) -> u16 { match self { Repr::Small(x) => *x as u16, Repr::Wide(x) => *x } } }
+impl PartialEq for Repr { fn eq(&self, o: &Self) -> bool { self.val() == o.val() } }
+impl Eq for Repr {}
+fn any_repr() -> Repr { if kani::any() { Repr::Small(kani::any()) } else { Repr::Wide(kani::any()) } }
+
+#[kani::proof]
+fn c12_equals_follows_the_users_eq() {
+  let o1 = any_repr(); let o2 = any_repr();
+  let s = EqualsChecker.stamp(&o1);
+  assert!(EqualsChecker.check(&o2, &s).is_none() == (o1 == o2));
+  assert!(EqualsChecker.check(&o1, &s).is_none());
+  // ... also inside Ok / Err, for the two partial checkers
+  let r1: Result<Repr, Repr> = if kani::any() { Ok(any_repr()) } else { Err(any_repr()) };
+  let r2: Result<Repr, Repr> = if kani::any() { Ok(any_repr()) } else { Err(any_repr()) };
+  let s = OkEqualsChecker.stamp(&r1);
+  assert!(OkEqualsChecker.check(&r2, &s).is_none() == (match (&r1, &r2) { (Ok(x), Ok(y)) => x == y, (Err(_), Err(_)) => true, _ => false }));
+  let s = ErrEqualsChecker.stamp(&r1);
+  assert!(ErrEqualsChecker.check(&r2, &s).is_none() == (match (&r1, &r2) { (Err(x), Err(y)) => x == y, (Ok(_), Ok(_)) => true, _ => false }));
+}
 #[kani::proof]
 fn c12_ok_equals() {
   let o1 = any_r(); let o2 = any_r();
